@@ -1,5 +1,6 @@
 import SaModel.Props.C01
 import SaModel.Props.C16
+import SaModel.Lemmas.C03Typed
 /-
 C03 / C01 with the external functions instantiated by the codec models (what the correspondence driver does:
 `Driver/Suites/Build.lean`, `extOfAux`; the same record as `Props.C16.codecExt`).
@@ -8,6 +9,7 @@ C03 / C01 with the external functions instantiated by the codec models (what the
                            range theorems of Props/C14.lean (`timeOfString_exact`, `span_parse_exact`) and the checked
                            conversions of the date / timestamp builders
   C03_wf_codec             `C03_wf` without the `ExtOK` hypothesis
+  C03_wf_codec_typed       … and with `SValOK` replaced by the typing invariant `SVal.typed` the wire decoder checks
   C01_build_decode_codec   `C01_build_decode` at the codec models (it never needed `ExtOK`; stated for symmetry)
 -/
 namespace SaModel.Props.C03
@@ -106,6 +108,30 @@ theorem C03_wf_codec (f32Str f64Str : Nat → String) (cast : Nat → Int → Bo
     ∀ (j : Nat) (f : Field) (a : Arr), fields[j]? = some f → arrs[j]? = some a →
       WF f a = true ∧ (decodeAll a).length = rows.length :=
   C03_wf _ fields rows arrs hschema hsafe (codecExt_ok f32Str f64Str cast) hraw hrows h
+
+/-- `SValOK`, the row hypothesis of `C03_wf`, is implied by the typing invariant of `SVal` (`SVal.typed`,
+Data/SValTyped.lean: every scalar call carries a value of its Rust type).  The wire decoder of the driver checks it
+(`Driver.svalOfJson_typed`), a derived `Serialize` satisfies it (`Roundtrip.ser_ok` gives `SValOK` directly). -/
+theorem typed_SValOK (x : SVal) (h : x.typed = true) : Lemmas.C03.SValOK x := Lemmas.C03.typed_SValOK x h
+
+/-- **C03 as the correspondence driver instantiates it**: codec models for the external functions, rows that passed the
+typing check of the wire decoder.  What remains are the schema exclusions (`SchemaOKF`: no `FixedSizeBinary(0)`, the
+known finding; `Safe`) and `rawOK` (raw key/value streams alternate). -/
+theorem C03_wf_codec_typed (f32Str f64Str : Nat → String) (cast : Nat → Int → Bool → Nat → Option (Bool × Int))
+    (fields : List Field) (rows : List SVal) (arrs : List Arr)
+    (hschema : ∀ f ∈ fields, Lemmas.C03.SchemaOKF f)
+    (hsafe : ∀ root0, newRoot fields = .ok root0 → Safe root0)
+    (hraw : ∀ x ∈ rows, Build.rawOK x = true) (hrows : ∀ x ∈ rows, x.typed = true)
+    (h : toMarrow (codecExt f32Str f64Str cast) fields rows = .ok arrs) :
+    arrs.length = fields.length ∧
+    ∀ (j : Nat) (f : Field) (a : Arr), fields[j]? = some f → arrs[j]? = some a →
+      WF f a = true ∧ (decodeAll a).length = rows.length :=
+  C03_wf_codec f32Str f64Str cast fields rows arrs hschema hsafe hraw (fun x hx => typed_SValOK x (hrows x hx)) h
+
+/-- non-vacuity of the typing invariant, and what it refuses -/
+example : SVal.typed (.record "R" (.cons "a" 0 (.int .u8 255) (.cons "c" 1 (.char 0x1F600) .nil))) = true ∧
+    SVal.typed (.int .u8 256) = false ∧ SVal.typed (.char 0xD800) = false ∧ SVal.typed (.f32 4294967296) = false := by
+  decide
 
 /-- **C01 with the codec models plugged in** (`C01_build_decode` holds for every `Ext`; this is its instance at the
 record the driver uses) -/
